@@ -34,6 +34,9 @@ pub struct FaultPlan {
     pub at: Option<usize>,
     /// keep failing every operation from `at` on, until `heal()` is called
     pub persistent: bool,
+    /// failing FLUSH operations report ErrorKind::Interrupted (never used for writes: write_all
+    /// retries those for ever, legitimately)
+    pub interrupted_flush: bool,
 }
 
 #[derive(Default)]
@@ -69,7 +72,7 @@ impl Dest {
     }
     pub fn with_fault(at: usize, persistent: bool) -> Dest {
         let d = Dest::default();
-        d.0.borrow_mut().fault = FaultPlan { at: Some(at), persistent };
+        d.0.borrow_mut().fault = FaultPlan { at: Some(at), persistent, interrupted_flush: false };
         d
     }
     pub fn set_epoch(&self, e: usize) {
@@ -154,6 +157,9 @@ impl Write for Dest {
         let e = s.epoch;
         if s.should_fail() {
             s.ops.push((e, Op::Failed('f')));
+            if s.fault.interrupted_flush {
+                return Err(io::Error::new(io::ErrorKind::Interrupted, "verif: injected interrupted flush"));
+            }
             return Err(injected());
         }
         s.ops.push((e, Op::Flush));
@@ -347,5 +353,63 @@ impl Seek for Src {
         s.pos = np as u64;
         s.ops.push((e, ROp::Seek(np as u64)));
         Ok(s.pos)
+    }
+}
+
+
+/// A `Read + Seek` source of `len` bytes that are all zero except for a few segments: lets a
+/// workload place records beyond 2^31 bytes without holding gigabytes.
+#[derive(Clone)]
+pub struct SparseSrc {
+    pub len: u64,
+    pub segments: Vec<(u64, Vec<u8>)>,
+    pub pos: u64,
+    pub seeks: usize,
+}
+
+impl SparseSrc {
+    pub fn new(len: u64, mut segments: Vec<(u64, Vec<u8>)>) -> SparseSrc {
+        segments.sort();
+        SparseSrc { len, segments, pos: 0, seeks: 0 }
+    }
+}
+
+impl Read for SparseSrc {
+    fn read(&mut self, buf: &mut [u8]) -> io::Result<usize> {
+        if self.pos >= self.len || buf.is_empty() {
+            return Ok(0);
+        }
+        let n = (buf.len() as u64).min(self.len - self.pos).min(1 << 16) as usize;
+        for b in buf[..n].iter_mut() {
+            *b = 0;
+        }
+        let (lo, hi) = (self.pos, self.pos + n as u64);
+        for (off, data) in &self.segments {
+            let (s, e) = (*off, *off + data.len() as u64);
+            if e <= lo || s >= hi {
+                continue;
+            }
+            let from = s.max(lo);
+            let to = e.min(hi);
+            buf[(from - lo) as usize..(to - lo) as usize].copy_from_slice(&data[(from - s) as usize..(to - s) as usize]);
+        }
+        self.pos += n as u64;
+        Ok(n)
+    }
+}
+
+impl Seek for SparseSrc {
+    fn seek(&mut self, p: SeekFrom) -> io::Result<u64> {
+        let np = match p {
+            SeekFrom::Start(x) => x as i128,
+            SeekFrom::End(x) => self.len as i128 + x as i128,
+            SeekFrom::Current(x) => self.pos as i128 + x as i128,
+        };
+        if np < 0 {
+            return Err(io::Error::new(io::ErrorKind::InvalidInput, "seek before start"));
+        }
+        self.pos = np as u64;
+        self.seeks += 1;
+        Ok(self.pos)
     }
 }
